@@ -151,6 +151,13 @@ def check(res, vals, inplace, E, shape="main"):
     if not inplace:
         conds.append(E([x.value for x in e0.fields if is_strlike(x.value)], [vals[x] for k, (kind, x) in spec if kind == "s"])
                      and E(s0.value, vals[5]))
+        # ... and the name parts / lists held by the input entry are not the ones that were converted
+        for fld0, (k, (kind, x)) in zip(e0.fields, spec):
+            if kind == "n":
+                v0 = fld0.value
+                conds.append(isinstance(v0, NameParts) and b_all([E(getattr(v0, part), [vals[i] for i in x.get(part, [])]) for part in ("first", "von", "last", "jr")]))
+                if ok:
+                    conds.append(all(f2.value is not v0 for f2 in eb.fields))
     return conds, (e_err or s_err)
 
 
@@ -172,6 +179,8 @@ def native_replay(kind, vals, inplace, shape="main"):
         mw = LatexEncodingMiddleware(encoder=Conv()) if kind == "enc" else LatexDecodingMiddleware(decoder=Conv())
         res = drv(mw, vals, inplace, shape)
     except Exception as ex:  # noqa
+        from pysym.harness import guard_repo_exception
+        guard_repo_exception(ex)
         return {"input": [kind, vals, inplace, shape], "observed": f"raised {type(ex).__name__}: {ex}", "expected": "error block, no exception"}
     conds, _ = check(res, vals, inplace, lambda a, b: a == b, shape)
     if all((c is True) or (not isinstance(c, bool) and False) or bool(c) for c in conds):
@@ -330,6 +339,8 @@ def native_ctor_seq(i1, j1, i2, j2):
         ref = describe_enc(LatexEncodingMiddleware())
         ea, eb, dec, fresh = drv_ctor_seq(i1, j1, i2, j2)
     except Exception as ex:  # noqa
+        from pysym.harness import guard_repo_exception
+        guard_repo_exception(ex)
         return {"input": [OPT[i1], OPT[j1], OPT[i2], OPT[j2]], "observed": f"raised {type(ex).__name__}: {ex}", "expected": "two middlewares"}
     finally:
         for k, v in saved.items():
